@@ -142,12 +142,20 @@ def one(ctx, rng, body, status, fault, ctype, target, ctxt, pname, scheme, by, t
         good = os.path.join(tmp, 'ok.pem')
         open(good, 'w').write('x')
         missing = os.path.join(tmp, 'missing.pem')
-        e.conf.set_override('remote_ssl_client_crt_file', missing if tls == 'crt_missing' else good, group='oslo_policy')
-        e.conf.set_override('remote_ssl_client_key_file', missing if tls == 'key_missing' else good, group='oslo_policy')
-        if tls == 'ca_missing':
+        # every combination of the client certificate / key options being unset, pointing at an
+        # existing file, or at a missing one; and the CA file with server verification on
+        crt = {'crt_missing': missing, 'crt_only_missing': missing, 'key_only_missing': None, 'key_only_ok': None,
+               'crt_only_ok': good}.get(tls, good)
+        key = {'key_missing': missing, 'key_only_missing': missing, 'crt_only_missing': None, 'crt_only_ok': None,
+               'key_only_ok': good}.get(tls, good)
+        if crt is not None:
+            e.conf.set_override('remote_ssl_client_crt_file', crt, group='oslo_policy')
+        if key is not None:
+            e.conf.set_override('remote_ssl_client_key_file', key, group='oslo_policy')
+        if tls in ('ca_missing', 'ca_ok'):
             e.conf.set_override('remote_ssl_verify_server_crt', True, group='oslo_policy')
-            e.conf.set_override('remote_ssl_ca_crt_file', missing, group='oslo_policy')
-        if tls != 'files_ok' and scheme == 'https':
+            e.conf.set_override('remote_ssl_ca_crt_file', missing if tls == 'ca_missing' else good, group='oslo_policy')
+        if tls.endswith('missing') and scheme == 'https':
             spec_fault = 'tlsfile'
     REPLY.clear()
     REPLY.update({'body': body, 'status': status, 'fault': fault})
@@ -230,7 +238,7 @@ def run(ctx):
             for scheme in ('http', 'https'):
                 for body in ['True', 'other']:
                     cases.append(one(ctx, rng, body, 200, fault, rng.choice(['form', 'json']), dict(rng.choice(TARGETS[:3])), ctxt, 'p:x', scheme, 'name'))
-    for tls in ['crt_missing', 'key_missing', 'ca_missing', 'files_ok']:
+    for tls in ['crt_missing', 'key_missing', 'ca_missing', 'files_ok', 'crt_only_missing', 'key_only_missing', 'crt_only_ok', 'key_only_ok', 'ca_ok']:
         for ctxt in CTX:
             for scheme in ('http', 'https'):
                 cases.append(one(ctx, rng, 'True', 200, 'none', 'form', {'k': 'x'}, ctxt, 'p:x', scheme, 'name', tls=tls))
